@@ -587,6 +587,10 @@ func isValidHTTPFieldValue(s string) bool {
 // HTTP header or trailer key.
 // https://datatracker.ietf.org/doc/html/rfc7230#section-3.2.6 (see rule for token)
 func isValidHTTPFieldName(s string) bool {
+	if s == "" {
+		// A token consists of at least one character.
+		return false
+	}
 	// Not using "range s" because that uses UTF8 decoding to iterate
 	// through runes. But spec is in terms of bytes.
 	for i := range len(s) {
